@@ -27,6 +27,46 @@ def run(ctx: Ctx, chk) -> None:
     chk.run_rule(override1, ctx)
     chk.run_rule(resync1, ctx)
     chk.run_rule(close_graceful, ctx)
+    chk.run_rule(init_attrs, ctx)
+
+
+def init_attrs(ctx: Ctx, chk) -> None:
+    rule = "INIT-ATTRS"
+    chk.rule(rule, "the attributes the stream operations test (`self.reader`, `self.writer`, the skip flag) exist on every transport object before connect: StreamTransport gives each a value in its constructor (or in the class body - a bare annotation creates no attribute), and every subclass constructor calls it; otherwise read / write / disconnect on a transport that was never (or not successfully) connected fail with AttributeError instead of the transport error / silent return the statement asks for")
+    st = ctx.cls(ST)
+    init = st.methods.get("__init__", [None])[-1]
+    used = set()
+    for name in ("read", "write", "disconnect", "connect"):
+        f = st.find_method(name)
+        if f is None:
+            raise AnalysisError(f"anchor vanished: StreamTransport.{name}")
+        for n in ctx.own_nodes(f):
+            if isinstance(n, ast.Attribute) and isinstance(n.value, ast.Name) and n.value.id == "self" and isinstance(n.ctx, ast.Load) and st.find_method(n.attr) is None:
+                used.add(n.attr)
+    n_inst = 0
+    for attr in sorted(used):
+        n_inst += 1
+        chk.instance(rule)
+        key = f"{st.fq}.{attr}::initialised"
+        in_init = init is not None and any(isinstance(x, (ast.Assign, ast.AnnAssign)) and any(isinstance(t, ast.Attribute) and t.attr == attr and isinstance(t.value, ast.Name) and t.value.id == "self" for t in (x.targets if isinstance(x, ast.Assign) else [x.target])) and (isinstance(x, ast.Assign) or x.value is not None) for x in ctx.own_nodes(init))
+        in_body = any(attr in k.attrs for k in st.repo_mro())
+        if in_init or in_body:
+            chk.ok(rule, key, "assigned in __init__" if in_init else "class-level default", st.module.relpath + f":{st.node.lineno}", sample=n_inst <= 2)
+        else:
+            chk.refute(rule, key, f"self.{attr} is read by the stream operations but nothing gives it a value before connect() (no assignment in StreamTransport.__init__, no class-level default - an annotation without a value creates no attribute): read / write / disconnect before a successful connect raise AttributeError", st.module.relpath + f":{st.node.lineno}")
+    for sub in ctx.prog.subclasses(st):
+        si = sub.methods.get("__init__", [None])[-1]
+        if si is None:
+            continue
+        n_inst += 1
+        chk.instance(rule)
+        key = f"{sub.fq}.__init__::super().__init__()"
+        calls = [x for x in ctx.own_nodes(si) if isinstance(x, ast.Call) and isinstance(x.func, ast.Attribute) and x.func.attr == "__init__" and isinstance(x.func.value, ast.Call) and norm(x.func.value.func) == "super"]
+        if calls or init is None:
+            chk.ok(rule, key, "calls the StreamTransport constructor" if calls else "no base constructor to call", ctx.loc(si, si.node), sample=False)
+        else:
+            chk.refute(rule, key, f"{sub.name}.__init__ does not call super().__init__(): the stream attributes are never initialised on this transport", ctx.loc(si, si.node))
+    chk.floor(rule, "stream attributes and subclass constructors", n_inst, 3)
 
 
 def close_graceful(ctx: Ctx, chk) -> None:
